@@ -24,6 +24,8 @@
 //	logs:colliding-log-index-dropped   two different logs of one tx carry the same logIndex; eth.Logs.Add keeps the first
 //	logs:attached-twice, logs:duplicate-log-index-attached
 //	{latest,hash}:not-as-sent
+//	lagging-node:<any of the above>   the node's head lay inside the requested range and the call returned, without
+//	                                  error, something else than the data of the full range
 //	cached:<any of the above>   a follow-up call on the same client returned, without fetching it again, an answer
 //	                            of the first call that had to be rejected (segment cache / latest-block cache)
 package c07
